@@ -140,10 +140,11 @@ def h_roles(c, kind):
         c.ensure("role." + k, eq(g(k), v))
 
 
-@harness("C10", "ports.tls_only_on_server_ports", functions=[M + ".handle_packet"])
+@harness(["C10", "C05", "C01"], "ports.tls_only_on_server_ports", functions=[M + ".handle_packet"])
 def h_guard(c):
     """main.handle_packet with no matching session: a TLS Session is created iff sport or dport is one of the
-    server ports (defaults 443 and 44330 plus user-selected ones), with the run's keep_original_ports/portmap"""
+    server ports (defaults 443 and 44330 plus user-selected ones), with the run's keep_original_ports/portmap -
+    WHATEVER the segment carries (C05: whether a connection is tracked must not depend on how TCP cut its first bytes)"""
     sport, dport = c.int("sport", 0, 65535), c.int("dport", 0, 65535)
     extra = c.int("extra_port", 0, 65535)
     pkt = make_packet(c, sport, dport)
